@@ -42,7 +42,13 @@ def run(ctx):
                 'expected table; bytes of to*+append* vs to*(concatenation). Non-trivial: at least one data row with a special character.')
     ctx.assumptions += ['the stdlib codecs (csv, pickle, json, text encodings, gzip, bz2) are lossless on this domain: hypotheses of the '
                         'theorems, exercised by every case; csv.writer/csv.reader (QUOTE_MINIMAL, QUOTE_ALL) are modelled in lean/Petl/Csv.lean, proved lossless (Petl.Csv.read_write) and compared with the C module on every run; QUOTE_NONNUMERIC, pickle, json, encodings, gzip and bz2 remain hypotheses']
-    ctx.prove(['PetlProofs.Props.C15', 'PetlProofs.Csv', 'PetlProofs.Props.C15Csv'], REQUIRED)
+    from translators import fingerprints as _fp
+    try:
+        _fpi = _fp.generate()
+        ctx.bridge('translator: fingerprints of the petl functions the hand-written models mirror (%d bodies)' % _fpi['names'], True)
+    except Exception as e:   # noqa
+        ctx.bridge('translator: source fingerprints extracted', False, repr(e))
+    ctx.prove(['PetlProofs.Props.C15', 'PetlProofs.Csv', 'PetlProofs.Props.C15Csv', 'PetlProofs.Snapshot.C15'], REQUIRED + ['Petl.Snapshot.C15_sources_as_validated'])
     rng = ctx.rng
     tmpd = tempfile.mkdtemp(prefix='petl_c15_')
     n = 1200 if ctx.thorough() else 150
